@@ -352,11 +352,11 @@ class CFG:
     def dom_set(self, i):
         idom = self.idom()
         out = set()
-        if i not in idom:
+        if i != ENTRY and i not in idom:
             return out
         while True:
             out.add(i)
-            if idom[i] == i:
+            if i == ENTRY or i not in idom or idom[i] == i:
                 break
             i = idom[i]
         return out
